@@ -91,10 +91,45 @@ WriteG ==
     IN [M |-> Manifest(es), exists |-> <<"../src/a.in">>, needs |-> << <<"../src/a.in">> >>, probes |-> NoSeqs(es),
         writes |-> << <<"out.txt", "side.log">> >>, aux |-> NoSeqs(es)]
 
+\* 9/10: a generator step whose driver script EXECUTES a plugin the project builds; the plugin is known to the
+\* build definition only through `depends:` (as the find_program() result an override maps to the executable):
+\* without / with the implicit input on the generator step
+PluginG(withDep) ==
+    LET es == << Edge("c_COMPILER", <<"../src/plug.c">>, <<>>, <<>>, <<"plug.p/plug.c.o">>),
+                 Edge("c_LINKER", <<"plug.p/plug.c.o">>, <<>>, <<>>, <<"plug">>),
+                 Edge("CUSTOM_COMMAND", <<"../src/msg.def">>,
+                      IF withDep THEN <<"../src/driver.sh", "plug">> ELSE <<"../src/driver.sh">>, <<>>, <<"app.p/msg.c">>),
+                 Edge("c_COMPILER", <<"app.p/msg.c">>, <<>>, <<>>, <<"app.p/msg.c.o">>),
+                 Edge("c_LINKER", <<"app.p/msg.c.o">>, <<>>, <<>>, <<"app">>),
+                 Edge("phony", <<"plug", "app">>, <<>>, <<>>, <<"all">>) >>
+    IN [M |-> Manifest(es), exists |-> <<"../src/plug.c", "../src/msg.def", "../src/driver.sh">>,
+        needs |-> << <<"../src/plug.c">>, <<"plug.p/plug.c.o">>, <<"../src/msg.def", "../src/driver.sh", "plug">>,
+                     <<"app.p/msg.c">>, <<"app.p/msg.c.o">>, <<>> >>,
+        probes |-> NoSeqs(es),
+        writes |-> << <<"plug.p/plug.c.o">>, <<"plug">>, <<"app.p/msg.c">>, <<"app.p/msg.c.o">>, <<"app">>, <<>> >>,
+        aux |-> NoSeqs(es)]
+\* 11/12: `ninja test`: the step that runs the tests executes an executable that is not built by default and reads
+\* generated data named in test(depends:); both reach it only through the phony meson-test-prereq (the data is
+\* missing from it / listed in it)
+TestG(withDep) ==
+    LET es == << Edge("c_COMPILER", <<"../src/t.c">>, <<>>, <<>>, <<"t.p/t.c.o">>),
+                 Edge("c_LINKER", <<"t.p/t.c.o">>, <<>>, <<>>, <<"t">>),
+                 Edge("CUSTOM_COMMAND", <<"../src/d.in">>, <<>>, <<>>, <<"data.txt">>),
+                 Edge("phony", <<>>, <<>>, <<>>, <<"all">>),
+                 Edge("phony", IF withDep THEN <<"t", "data.txt">> ELSE <<"t">>, <<>>, <<>>, <<"meson-test-prereq">>),
+                 Edge("CUSTOM_COMMAND", <<"all", "meson-test-prereq">>, <<>>, <<>>, <<"meson-internal__test">>) >>
+    IN [M |-> Manifest(es), exists |-> <<"../src/t.c", "../src/d.in">>,
+        needs |-> << <<"../src/t.c">>, <<"t.p/t.c.o">>, <<"../src/d.in">>, <<>>, <<>>, <<"t", "data.txt">> >>,
+        probes |-> NoSeqs(es),
+        writes |-> << <<"t.p/t.c.o">>, <<"t">>, <<"data.txt">>, <<>>, <<>>, <<"meson-logs/testlog.txt">> >>,
+        aux |-> << <<>>, <<>>, <<>>, <<>>, <<>>, <<"meson-logs/testlog.txt">> >>]
+
 HandG(k) == CASE k = 1 -> HeaderG(FALSE) [] k = 2 -> HeaderG(TRUE)
               [] k = 3 -> ChainG(FALSE)  [] k = 4 -> ChainG(TRUE)
               [] k = 5 -> LinkG(FALSE)   [] k = 6 -> LinkG(TRUE)
               [] k = 7 -> ProbeG         [] k = 8 -> WriteG
+              [] k = 9 -> PluginG(FALSE) [] k = 10 -> PluginG(TRUE)
+              [] k = 11 -> TestG(FALSE)  [] k = 12 -> TestG(TRUE)
 
 \* ---- the state machine ------------------------------------------------------
 VARIABLES G, built, view
